@@ -264,6 +264,9 @@ func (r *Report) Finish(verifDir string, onlyConstructs map[string]bool) int {
 		ev["assumptions"] = []string{}
 	}
 	evDir := filepath.Join(verifDir, "evidence")
+	if d := os.Getenv("VERIF_EVIDENCE_DIR"); d != "" {
+		evDir = d // development runs against scratch copies must not clobber the committed evidence
+	}
 	_ = os.MkdirAll(filepath.Join(evDir, "replay"), 0o755)
 	if onlyConstructs == nil {
 		writeJSON(filepath.Join(evDir, r.Property+".json"), ev)
